@@ -1062,6 +1062,9 @@ package ro
 //@   calls CompleteWithContext Lock Unlock Unsubscribe
 //@   params ctx
 //@   scope completed ctx destination err mu muEmit obs onUpdate subscriberCtx subscriptions v values varargs
+//@   note values and completed are the addresses of cells of the caller (the wiring contracts of ZipWith1..5 check that each call passes addr(cell))
+//@   requires !isnilptr(values)
+//@   requires !isnilptr(completed)
 //@   track destination.* subscriptions.*
 //@   ensures [a-drained-source-completes-the-output|C05,C09] len(old(values)) == 0 ==> trace(destination.CompleteWithContext(ctx), subscriptions.Unsubscribe())
 //@   ensures [a-finished-source-with-queued-values-keeps-the-others-subscribed|C05] len(old(values)) > 0 ==> trace()
